@@ -4,6 +4,7 @@
 
 pub mod alg;
 pub mod alloc_mon;
+pub mod cli;
 pub mod corpus;
 pub mod ctx;
 pub mod gen_;
